@@ -27,6 +27,8 @@ def script_obligation(rep, prog):
     extra.update(listsum.LIST)
     extra[r"are_on_same_mount$"] = summaries.pure("same_mount")
     extra[r"move_target$"] = summaries.pure("move_target")
+    extra[r"^(std::path::)?Path::is_symlink$"] = summaries.pure("is_symlink")
+    extra[r"^(path::)?Path::to_path_buf$"] = summaries.pure("pathbuf")
     eng = oblig.engine(prog, unroll=4, extra=extra, inline=dedupe_part.dedupe_inliner(prog))
     ds = prog.method("PartitionedFileGroup", "dedupe_script")
     fi = prog.src.field_index
@@ -71,13 +73,22 @@ def script_obligation(rep, prog):
                                     removed.append(names[0])
                                     ok = ok and "move_target" in names[1] and names[0] + ".path" in names[1]
                                 else:
-                                    # target (first field) is the first retained file, link is a dropped file
-                                    ok = ok and ("k0" in names[0]) and not any(("d%d" % i) in names[0] for i in range(nd))
+                                    # target (first field) is a retained file - the first one that is not a symbolic link (a retained
+                                    # link may point to the very file being replaced: `link --soft` would build a cycle) - and link
+                                    # is a dropped file
+                                    chosen = [j for j in range(nk) if ("k%d" % j) in names[0]]
+                                    ok = ok and len(chosen) == 1 and not any(("d%d" % i) in names[0] for i in range(nd))
+                                    if ok:
+                                        sym = lambda j: z3.Bool(mirsym.sanitize("is_symlink(pathbuf(k%d.path))" % j))
+                                        j = chosen[0]
+                                        # (the lstat results are free per-path predicates; code that does not look cannot know)
+                                        want = z3.And(z3.Or(z3.Not(sym(j)), z3.And(*[sym(t) for t in range(nk)])), *[sym(t) for t in range(j)])
+                                        ok = eng.check(*(list(p.pc) + [z3.Not(want)])) == z3.unsat
                                     removed.append(names[1])
                             ok = ok and sorted(removed) == sorted("d%d" % i for i in range(nd))
                     if not ok:
                         bad.append(case + " -> " + (repr(p.result)[:120] if p.result is not None else p.status))
-    o = Obligation("dedupe_script: commands act on dropped paths only, links point at the first retained file, no command without a retained file",
+    o = Obligation("dedupe_script: commands act on dropped paths only, links point at the first retained file that is not a symbolic link, no command without a retained file",
                    "E2 mirsym/z3 (list model)", oblig.fnames(eng), "5 operations x |to_keep| 0..2 x |to_drop| 0..2")
     o.key = "dedupe_script"
     o.queries = eng.queries
@@ -105,7 +116,7 @@ def run():
     ctx = oblig.Ctx()
     prog = ctx.lib
     oblig.install_battery(rep, ctx, ["c02_battery", "c08_battery", "c04_battery", "c06_battery"])
-    part_common.add(rep, prog, ["retention-count", "no-loss-no-dup", "atomic-subgroups", "patterns", "stale-filter", "mtime-check", "subgroup-args"], "C02", part_common.make_replayer(ctx))
+    part_common.add(rep, prog, ["retention-count", "no-loss-no-dup", "atomic-subgroups", "patterns", "stale-filter", "mtime-check", "subgroup-args", "data-retained"], "C02", part_common.make_replayer(ctx))
     try:
         script_obligation(rep, prog)
     except Inconclusive as ex:
